@@ -46,73 +46,7 @@ def uses_of(f, local):
 def run(ctx):
     mir = load()
 
-    # ------------------------------------------------------------------ R10.1
-    r = ctx.rule("R10.1", "charge before grow: in memory::arena and memory::limited_vec every reservation on the backing Vec is dominated by the Ok edge of increase_usage computed from the same operands; every unconditional growth is dominated by such a reservation or by the sufficient-capacity branch; the backing fields are private", "E-MIR dominance", floor=6)
-    for nm, field in (("Arena::append", "data"), ("LimitedVec::push", "vec")):
-        f = mir.fn(nm)
-        inc = list(f.calls(r"SharedMemoryLimiter::increase_usage$"))
-        res = list(f.calls(r"Vec::try_reserve(_exact)?$|Vec::reserve(_exact)?$"))
-        grow = list(f.calls(r"Vec::extend_from_slice$|Vec::push$|Vec::extend$|Vec::insert$|Vec::resize$"))
-        key = nm
-        r.inst(key + "|charge", sample={"fn": nm, "increase_usage": len(inc), "reserve": [callee_key(t) for _, t in res], "growth": [callee_key(t) for _, t in grow]})
-        if len(inc) != 1 or len(res) != 1:
-            r.violate(key + "|charge", f"{nm}: expected exactly one increase_usage and one reservation", f.loc())
-            continue
-        ibi, it = inc[0]
-        rbi, rt = res[0]
-        # Ok edge of increase_usage?: the `?` branch: continue target dominates the reservation, error edge returns
-        if not f.dominates(ibi, rbi):
-            r.violate(key + "|order", f"{nm} reserves memory before (or without) charging it to the limiter", f.loc())
-        errs = f.err_return_blocks()
-        if not f.can_reach_without(it["t"], set(errs), {rbi}):
-            r.violate(key + "|err-edge", f"{nm}: a refused charge does not return the error before reserving", f.loc())
-        if "try_reserve" not in callee_key(rt):
-            r.violate(key + "|fallible", f"{nm} uses the aborting {callee_key(rt)} instead of try_reserve*", f.loc())
-        # operands
-        ia = f.describe_operand(it["args"][1])
-        ra = f.describe_operand(rt["args"][1])
-        r.inst(key + "|operands", sample={"charged": ia, "reserved": ra})
-        if nm == "Arena::append":
-            # charged = slice.len() + len - capacity ; reserved = slice.len()
-            txt = f.deep(it["args"][1])
-            if not ("len(slice)" in txt and "Vec::len(self.data)" in txt and "Vec::capacity(self.data)" in txt and "Sub" in txt and "Add" in txt):
-                r.violate(key + "|charged-amount", f"Arena::append charges `{txt}`, expected slice.len() + len - capacity (the growth of the buffer)", f.loc())
-            ra = f.deep(rt["args"][1])
-            if ra != "[T]::len(slice)":
-                r.violate(key + "|reserved-amount", f"Arena::append reserves `{ra}`, expected slice.len()", f.loc())
-        else:
-            cm0 = list(f.calls(r"usize::checked_mul$|checked_mul$"))
-            same_root = bool(cm0) and f.root_place(rt["args"][1]) is not None and f.root_place(cm0[0][1]["args"][0]) is not None and f.root_place(rt["args"][1])[0] == f.root_place(cm0[0][1]["args"][0])[0]
-            if ra != "additional" and not same_root:
-                r.violate(key + "|reserved-amount", f"LimitedVec::push reserves `{ra}`, expected the `additional` element count that was charged", f.loc())
-            cm = list(f.calls(r"usize::checked_mul$|checked_mul$"))
-            ok = len(cm) == 1 and f.describe_operand(cm[0][1]["args"][0]) == "additional" and "size_of" in f.describe_operand(cm[0][1]["args"][1])
-            if not ok or ia != "additional_bytes":
-                r.violate(key + "|charged-amount", f"LimitedVec::push charges `{ia}`, expected additional.checked_mul(size_of::<T>())", f.loc())
-        for gbi, gt in grow:
-            k2 = key + "|growth:" + callee_key(gt)
-            r.inst(k2)
-            if not (f.dominates(rbi, gbi) or gbi not in f.reachable_without_edges(0, removed_blocks=[rbi], removed_edges=_sufficient_capacity_edges(f))):
-                r.violate(k2, f"{nm}: {callee_key(gt)} can grow the backing vector without a preceding charged reservation or capacity check", f.loc())
-    for adt, fld in (("Arena", "data"), ("LimitedVec", "vec")):
-        a = mir.adt(adt)
-        v = [x["vis"] for x in a["variants"][0]["fields"] if x["name"] == fld]
-        r.inst(f"{adt}.{fld}|private", sample={"vis": v})
-        if not v or "Restricted" not in v[0] or "memory::" not in v[0]:
-            r.violate(f"{adt}.{fld}|private", f"{adt}.{fld} is visible outside its module ({v}): other code could grow it without charging", None)
-        # who touches the field mutably outside the owner type
-        outside = sorted(set(f.key for f in mir.fns if not mir.is_test_fn(f) and f.owner != adt and f"{adt}.{fld}" in (sm.fields_written(f) | sm.fields_read(f))))
-        r.inst(f"{adt}.{fld}|accessors", sample={"outside": outside})
-        if outside:
-            r.violate(f"{adt}.{fld}|accessors", f"{adt}.{fld} is accessed from {outside}", None)
-    an = mir.fn("Arena::new")
-    r.inst("Arena::new|special-case")
-    cl = [g for g in mir.fns if g.key.startswith("Arena::new::{closure")]
-    rs = [callee_key(t) for g in cl for bi, t in g.calls(r"try_reserve")]
-    inc = list(an.calls(r"increase_usage$"))
-    at = list(an.calls(r"Option::and_then$"))
-    if not (len(inc) == 1 and len(at) == 1 and rs and an.dominates(inc[0][0], at[0][0]) and not list(an.calls(r"try_reserve|reserve"))):
-        r.violate("Arena::new|special-case", "Arena::new no longer reserves only inside the and_then closure applied to the result of increase_usage", an.loc())
+    rule_charge_before_grow(ctx, mir)
 
     # ------------------------------------------------------------------ R10.2
     r = ctx.rule("R10.2", "limit errors are never dropped or re-labelled: every Result<_, MemoryLimitExceededError> is propagated with `?`, returned, or mapped into RewritingError::/VmError::MemoryLimitExceeded", "E-MIR error discipline", floor=12)
@@ -330,6 +264,12 @@ def run(ctx):
     if not ok:
         r.violate("write|flag-cleared-when-all-consumed", f"TransformStream::write no longer clears has_buffered_data exactly when consumed == chunk.len() (test: {[(op, a[:30], c[:30]) for _, op, a, c in cmp_]}): from then on every chunk is appended to the parsing buffer and charged to the memory limiter although nothing needs to be retained, so a run that needs no budget fails under a limit depending on the caller's chunk sizes", w.loc())
 
+    # ------------------------------------------------------------------ R10.7 (shared with C09 R09.1)
+    # with a capture active the lexer retains only the unfinished token: text is emitted (and its bytes released) at every chunk end
+    from .c09 import rule_text_released
+    from ..smgraph import automaton as _automaton
+    rule_text_released(ctx, _automaton(), rid="R10.7")
+
     ctx.not_decided += ["monotonicity in M and equality of outputs across limits (relations between runs)", "that Vec::try_reserve_exact reserves exactly what was charged (allocator behaviour)"]
     return ("Accounting clauses: charge-dominates-grow on the two limited containers with operand identity, error discipline for every "
             "Result carrying MemoryLimitExceededError (23 sites), the comparison shape of the limiter, a type-driven inventory of every growable "
@@ -440,3 +380,74 @@ def grow_sites(mir, reachable):
                 for k in keys:
                     out.setdefault(k, []).append((f.key, how, bi))
     return out
+
+
+def rule_charge_before_grow(ctx, mir, rid="R10.1"):
+    # ------------------------------------------------------------------ R10.1
+    r = ctx.rule(rid, "charge before grow: in memory::arena and memory::limited_vec every reservation on the backing Vec is dominated by the Ok edge of increase_usage computed from the same operands; every unconditional growth is dominated by such a reservation or by the sufficient-capacity branch; the backing fields are private", "E-MIR dominance", floor=6)
+    for nm, field in (("Arena::append", "data"), ("LimitedVec::push", "vec")):
+        f = mir.fn(nm)
+        inc = list(f.calls(r"SharedMemoryLimiter::increase_usage$"))
+        res = list(f.calls(r"Vec::try_reserve(_exact)?$|Vec::reserve(_exact)?$"))
+        grow = list(f.calls(r"Vec::extend_from_slice$|Vec::push$|Vec::extend$|Vec::insert$|Vec::resize$"))
+        key = nm
+        r.inst(key + "|charge", sample={"fn": nm, "increase_usage": len(inc), "reserve": [callee_key(t) for _, t in res], "growth": [callee_key(t) for _, t in grow]})
+        if len(inc) != 1 or len(res) != 1:
+            r.violate(key + "|charge", f"{nm}: expected exactly one increase_usage and one reservation", f.loc())
+            continue
+        ibi, it = inc[0]
+        rbi, rt = res[0]
+        # Ok edge of increase_usage?: the `?` branch: continue target dominates the reservation, error edge returns
+        if not f.dominates(ibi, rbi):
+            r.violate(key + "|order", f"{nm} reserves memory before (or without) charging it to the limiter", f.loc())
+        errs = f.err_return_blocks()
+        if not f.can_reach_without(it["t"], set(errs), {rbi}):
+            r.violate(key + "|err-edge", f"{nm}: a refused charge does not return the error before reserving", f.loc())
+        if "try_reserve" not in callee_key(rt):
+            r.violate(key + "|fallible", f"{nm} uses the aborting {callee_key(rt)} instead of try_reserve*", f.loc())
+        # operands
+        ia = f.describe_operand(it["args"][1])
+        ra = f.describe_operand(rt["args"][1])
+        r.inst(key + "|operands", sample={"charged": ia, "reserved": ra})
+        if nm == "Arena::append":
+            # charged = slice.len() + len - capacity ; reserved = slice.len()
+            txt = f.deep(it["args"][1])
+            if not ("len(slice)" in txt and "Vec::len(self.data)" in txt and "Vec::capacity(self.data)" in txt and "Sub" in txt and "Add" in txt):
+                r.violate(key + "|charged-amount", f"Arena::append charges `{txt}`, expected slice.len() + len - capacity (the growth of the buffer)", f.loc())
+            ra = f.deep(rt["args"][1])
+            if ra != "[T]::len(slice)":
+                r.violate(key + "|reserved-amount", f"Arena::append reserves `{ra}`, expected slice.len()", f.loc())
+        else:
+            cm0 = list(f.calls(r"usize::checked_mul$|checked_mul$"))
+            same_root = bool(cm0) and f.root_place(rt["args"][1]) is not None and f.root_place(cm0[0][1]["args"][0]) is not None and f.root_place(rt["args"][1])[0] == f.root_place(cm0[0][1]["args"][0])[0]
+            if ra != "additional" and not same_root:
+                r.violate(key + "|reserved-amount", f"LimitedVec::push reserves `{ra}`, expected the `additional` element count that was charged", f.loc())
+            cm = list(f.calls(r"usize::checked_mul$|checked_mul$"))
+            ok = len(cm) == 1 and f.describe_operand(cm[0][1]["args"][0]) == "additional" and "size_of" in f.describe_operand(cm[0][1]["args"][1])
+            if not ok or ia != "additional_bytes":
+                r.violate(key + "|charged-amount", f"LimitedVec::push charges `{ia}`, expected additional.checked_mul(size_of::<T>())", f.loc())
+        for gbi, gt in grow:
+            k2 = key + "|growth:" + callee_key(gt)
+            r.inst(k2)
+            if not (f.dominates(rbi, gbi) or gbi not in f.reachable_without_edges(0, removed_blocks=[rbi], removed_edges=_sufficient_capacity_edges(f))):
+                r.violate(k2, f"{nm}: {callee_key(gt)} can grow the backing vector without a preceding charged reservation or capacity check", f.loc())
+    for adt, fld in (("Arena", "data"), ("LimitedVec", "vec")):
+        a = mir.adt(adt)
+        v = [x["vis"] for x in a["variants"][0]["fields"] if x["name"] == fld]
+        r.inst(f"{adt}.{fld}|private", sample={"vis": v})
+        if not v or "Restricted" not in v[0] or "memory::" not in v[0]:
+            r.violate(f"{adt}.{fld}|private", f"{adt}.{fld} is visible outside its module ({v}): other code could grow it without charging", None)
+        # who touches the field mutably outside the owner type
+        outside = sorted(set(f.key for f in mir.fns if not mir.is_test_fn(f) and f.owner != adt and f"{adt}.{fld}" in (sm.fields_written(f) | sm.fields_read(f))))
+        r.inst(f"{adt}.{fld}|accessors", sample={"outside": outside})
+        if outside:
+            r.violate(f"{adt}.{fld}|accessors", f"{adt}.{fld} is accessed from {outside}", None)
+    an = mir.fn("Arena::new")
+    r.inst("Arena::new|special-case")
+    cl = [g for g in mir.fns if g.key.startswith("Arena::new::{closure")]
+    rs = [callee_key(t) for g in cl for bi, t in g.calls(r"try_reserve")]
+    inc = list(an.calls(r"increase_usage$"))
+    at = list(an.calls(r"Option::and_then$"))
+    if not (len(inc) == 1 and len(at) == 1 and rs and an.dominates(inc[0][0], at[0][0]) and not list(an.calls(r"try_reserve|reserve"))):
+        r.violate("Arena::new|special-case", "Arena::new no longer reserves only inside the and_then closure applied to the result of increase_usage", an.loc())
+
